@@ -91,7 +91,12 @@ def other_types(x):
     """one value of every other data type (unsigned, negative, byte string, text, array, map, boolean)"""
     cands = {"uint": 1, "nint": -1, "bytes": b"\x01", "text": "a", "array": [], "map": M([]), "bool": True}
     k = kind_of(x)
-    return [(n, v) for n, v in cands.items() if n != k]
+    res = [(n, v) for n, v in cands.items() if n != k]
+    if isinstance(x, (bytes, bytearray)) and len(x) <= 80:
+        # the same bytes as a CBOR array of small integers (some byte-string visitors also accept a sequence), exact length and one more
+        res.append(("array", [b for b in x]))
+        res.append(("array", [b for b in x] + [7]))
+    return res
 
 
 def has_head_arg(x):
